@@ -656,6 +656,15 @@ class Sim:
                     return
                 self.io_iteration()
             th.join = join
+            # the moment stop() has finished waiting for the connections and turns to the I/O thread: how long it waited (virtual
+            # seconds) and how many connections were still registered
+            t_stop0, orig_stop = self.env.now, th.stop
+
+            def stop_io(*a, **k):
+                self.obs.append(f"STOPWAIT dt={int(self.env.now - t_stop0)} registered={len(n.connections)}")
+                th.stop = orig_stop
+                return orig_stop(*a, **k)
+            th.stop = stop_io
             try:
                 n.stop(wait_timeout=int(t[2]), force=force)
                 self.obs.append("STOPPED")
@@ -715,6 +724,29 @@ class Sim:
         # every container the node, its connections' owner objects and the applications hold (whatever its name): total sizes
         self.obs.append("ALL " + " ".join(f"{k}={v}" for k, v in sorted(self._container_sizes().items())))
         self.obs.append(f"LSN open={sum(1 for s in self.env.sockets if not s.closed and s.kind == 'listen')}")
+        # the statistics windows of the peers: bounded deques within their bound, time-slotted counters holding nothing older
+        # than their maximum age (relative to the newest slot: the counter forgets when it is incremented)
+        import collections
+        over, span, slots = 0, 0, 0
+        for p in self.peers:
+            st = getattr(p, "statistics", None)
+            if st is None:
+                continue
+            counters = []
+            for v in vars(st).values():
+                if isinstance(v, collections.deque) and (v.maxlen is None or len(v) > v.maxlen):
+                    over += 1
+                vs = list(v.values()) if isinstance(v, dict) else [v]
+                for x in vs:
+                    if isinstance(x, collections.deque) and x.maxlen is None:
+                        over += 1
+                    if hasattr(x, "_slots") and hasattr(x, "_maxage"):
+                        counters.append(x)
+            for c in counters:
+                slots += len(c._slots)
+                if c._slots:
+                    span = max(span, max(c._slots) - min(c._slots) - c._maxage)
+        self.obs.append(f"STAT unbounded={over} beyondAge={max(span, 0)} slots={slots}")
 
     def _container_sizes(self) -> dict:
         import collections
